@@ -1,4 +1,21 @@
-from ..runner import Harness, Spec
+import os
+
+from ..runner import REPO, Harness, Spec
+
+
+def _shared_exp():
+    """shared EXPORTER stream of the lifecycle harness: on when the tree has the repaired ShutdownAll (exporters last;
+    fix commit 'shut exporters down after every other pipeline component'), otherwise off; VERIF_C10_SHARED_EXP=1/0 forces it.
+    Once the fix is in /repo the default below should become "1" so that losing the fix is a violation again."""
+    v = os.environ.get("VERIF_C10_SHARED_EXP", "auto")
+    if v != "auto":
+        return v
+    try:
+        with open(os.path.join(REPO, "service/internal/graph/graph.go")) as f:
+            return "1" if "isExporter := node.(*exporterNode)" in f.read() else "0"
+    except OSError:
+        return "0"
+
 
 SHARED = ["require go.opentelemetry.io/collector/internal/sharedcomponent v0.124.0",
           "replace go.opentelemetry.io/collector/internal/sharedcomponent => $REPO/internal/sharedcomponent"]
@@ -11,7 +28,10 @@ SPEC = Spec(
                 files={"zz_verif_c10_components_test.go": "c10/components_test.go",
                        "zz_verif_c10_service_test.go": "c10/service_test.go"},
                 test="TestVerifC10Lifecycle", driver="drv_c10", n={"quick": 3000, "thorough": 40000}, timeout_s=1500,
-                mod_append=SHARED),
+                mod_append=SHARED,
+                env={"VERIF_C10_SHARED_EXP": _shared_exp(),
+                     # shared CONNECTOR stream: recorded observation (no order the graph can choose is right), off by default
+                     "VERIF_C10_SHARED_CONN": os.environ.get("VERIF_C10_SHARED_CONN", "0")}),
         # the collector's own use of Service.Start/Shutdown (initial start failure, reload, failed reload): the real
         # otelcol.Collector driven by the C20 gated harness; here it serves the exactly-once clause of C10 on those paths
         # (signatures C20/service/component-shutdown-twice, C20/return/started-component-not-shut-down)
@@ -25,7 +45,10 @@ SPEC = Spec(
          "internal/sharedcomponent, 30% 1-2 injected Start failures, 30% 1-2 injected Shutdown failures (any component, extension or "
          "shared inner). Real service.New -> Start -> Shutdown driven as otelcol/collector.go does (Shutdown once, also after a failed "
          "Start); the lifecycle log is monitored by the Lean checker C10.check. non-trivial = has a connector, an extension dependency, "
-         "a shared receiver or an injected failure; distinct = distinct op sequences (sha1 of the op lines).",
+         "a shared receiver or an injected failure; distinct = distinct op sequences (sha1 of the op lines). When the tree has the repaired "
+         "ShutdownAll (exporters last) 30% of the cases also build one exporter on sharedcomponent across signals "
+         "(VERIF_C10_SHARED_EXP, auto-detected); a connector built on sharedcomponent (VERIF_C10_SHARED_CONN=1, corpus case 10 = the "
+         "Lean witness exConnCfg) is a recorded limitation and off by default.",
     trusted_base=[
         "Lean 4.33.0 kernel; axioms per theorem listed under axioms_per_theorem (subset of propext, Classical.choice, Quot.sound)",
         "gonum topo.Sort is a PARAMETER of the model: the theorems hold for every order that is duplicate-free, complete and has every edge forward (Sys.Admissible); that gonum returns such an order is not proved - the monitor checks the consequences on every observed log",
@@ -33,6 +56,7 @@ SPEC = Spec(
         "hand-written model of Graph.StartAll/ShutdownAll, Extensions.Start/Shutdown, Service.Start/Shutdown, collector shutdown-after-failed-start, sharedcomponent once-only; tied by the monitor (order clauses) and by exact differential on the order-independent observations (New result class, Start result, set of stopped components, set of failed Shutdowns, Shutdown result)",
         "lifecycle harness: plays the collector's part (Start; Shutdown exactly once also after a failed Start); collector harness: the real otelcol.Collector (C20 gated harness and model) covers the collector's reload / failed-reload use of Service.Start/Shutdown",
         "NotifyConfig / PipelineWatcher hooks and status reporting are not modelled (C11/C20)",
+        "service.New is modelled by newService (graph.Build first, then computeOrder: missing dependency, then sortability); an extension depending on itself (gonum SetEdge panic inside New) is not generated - no extension of the repository implements Dependencies()",
     ],
     assumptions=[
         "topo.Sort returns a topological order of the graph it is given (both for the component graph and for the extension dependency graph)",
